@@ -67,6 +67,18 @@ def task(W, payload):
         at = r.randint(0, len(reqs))
         reqs = reqs[:at] + pair + reqs[at:]
         bump(out, "chain_twin_requests")
+    # two independent requests whose names differ by the suffix "_raw" and that select DIFFERENT flows: a post-processed flow output `yy` and a
+    # raw flow output `yy_raw` of another flow (each must keep its own definition, in either declaration order)
+    fnames = sorted(set(op["name"] for op in base_ops if op["op"] == "flow" and op["kind"] != "universal_death"))
+    raw_pair = None
+    if len(fnames) >= 2 and r.random() < 0.7:
+        fa, fb = r.sample(fnames, 2)
+        raw_pair = [{"op": "request", "name": "yy", "kind": "flow", "flow": fa, "raw": False, "save": True},
+                    {"op": "request", "name": "yy_raw", "kind": "flow", "flow": fb, "raw": True, "save": True}]
+        r.shuffle(raw_pair)
+        at = r.randint(0, len(reqs))
+        reqs = reqs[:at] + raw_pair + reqs[at:]
+        bump(out, "name_and_name_raw_requests")
     # "diamond" of aggregates: two intermediate aggregates that SHARE a source, and their aggregate
     names0 = base_ops[0]["comps"]
     diamond = False
@@ -152,6 +164,14 @@ def task(W, payload):
         out["evals"] += 1
         check("a different declaration order", got, names, {"order": [o["name"] for o in order]})
         out["cases"].append(h + ":order")
+    if raw_pair:
+        swapped = [dict(op) for op in all_saved]
+        i1 = next(i for i, op in enumerate(swapped) if op["name"] == raw_pair[0]["name"]); i2 = next(i for i, op in enumerate(swapped) if op["name"] == raw_pair[1]["name"])
+        swapped[i1], swapped[i2] = swapped[i2], swapped[i1]
+        got, err = run_variant(W, base_ops + swapped, prog["params"])
+        out["evals"] += 1
+        check("a different declaration order (the two requests named yy and yy_raw swapped)", got, names, {"order": [o["name"] for o in swapped]})
+        out["cases"].append(h + ":raw_pair")
     # correspondence with the model under one whitelist
     S = fresh_session(W)
     wl = subsets[0]
